@@ -8,6 +8,8 @@ NameOf(b) == CHOOSE n \in OpNames : OpByte[n] = b
 Named(items) == [i \in 1..Len(items) |->
                     IF items[i].k = "op" THEN [k |-> "op", n |-> NameOf(items[i].b), d |-> <<>>]
                     ELSE [k |-> "data", n |-> "", d |-> items[i].d]]
+(* defined here, not in the grammar module: TLC evaluates zero-arity constants eagerly *)
+AllCases == UNION {Successors(p.a) : p \in Parts}
 Row(x) ==
     CASE x.k = "prog"  -> [op |-> "asm", items |-> Named(x.a), r |-> Asm(x.a)]
       [] x.k = "bytes" -> LET d == Disasm(x.a) IN
